@@ -29,7 +29,7 @@ RULE = ('retry words: exhaustive up to length 3 per configuration (quick: sample
 ASSUMPTIONS = ['a fake aiohttp session stands for the network: connection errors/timeouts are raised by it', 'login handlers always return fresh credentials eventually',
                'Retry-After values are whole seconds (HTTP)']
 GATES = {'retry_cases': 150, 'attempts': 1200, 'gaps_checked': 600, 'retry_after_overrides': 100, 'zero_backoff_429': 20, 'escalations': 150, 'immediate_escalations': 50,
-         'reauth_cases': 60, 'logins': 60, 'blocked_requests_resumed': 80, 'contain_cases': 30, 'throttle_rounds': 50, 'neighbour_calls': 100, 'recoveries': 30}
+         'reauth_cases': 60, 'logins': 60, 'blocked_requests_resumed': 80, 'reauth_operator_runs': 30, 'contain_cases': 30, 'throttle_rounds': 50, 'neighbour_calls': 100, 'recoveries': 30}
 
 RETRYABLE = {500, 502, 503, 504, 403, 429}
 FATAL = {400, 404, 409, 410, 422}
@@ -127,6 +127,33 @@ def gen_cases(tier: str, seed: int):
                       'revocations': sorted(round(rng.uniform(0.5, 12.0), 3) for _ in range(rng.randint(1, 3))),
                       'login_delay': rng.choice([0.0, 0.2, 1.0, 3.0]), 'latencies': [0.0, 0.05, 0.3, 1.0], 'gap': rng.choice([0.0, 0.1, 0.7]),
                       'flaky': rng.random() < 0.4, 'start_empty': rng.random() < 0.2})
+    # (d) re-authentication of the whole operator: its token is revoked while watch streams are open and several patches are in flight
+    for j in range(40 if tier == 'quick' else 1000):
+        n_obj = rng.choice([1, 2, 4, 6])
+        tl: list[list[Any]] = [[0.5, 'start', 'op1']]
+        for k in range(n_obj):
+            tl.append([1.0, 'create', f'o{k}', {'spec': {'x': 0}}])
+        t = 2.0
+        last: dict[str, int] = {}
+        for k in range(rng.randint(8, 30)):
+            t = round(t + rng.choice([0.0, 0.05, 0.3, 0.7, 1.5]), 3)
+            nm = f'o{rng.randrange(n_obj)}'
+            last[nm] = k + 1
+            tl.append([t, 'edit', nm, {'spec': {'x': k + 1}}])
+        t_max = t
+        for k in range(rng.randint(1, 3)):
+            tr = round(rng.uniform(2.0, t_max + 1.0), 3)
+            tl.append([tr, 'revoke', 'op1'])
+            if rng.random() < 0.3:
+                tl.append([round(tr + rng.choice([0.0, 0.1, 1.0]), 3), 'revoke', 'op1'])     # again, possibly while the login is still in progress
+        tl.sort(key=lambda x: x[0])
+        handlers = [{'kind': 'login', 'id': 'lg', 'delay': rng.choice([0.0, 0.3, 1.5])}, {'kind': 'create', 'id': 'c1'},
+                    {'kind': 'update', 'id': 'u1', 'script': [rng.choice([['ok'], ['slow', 0.4], ['ok', {'r': 1}]]) for _ in range(60)]}]
+        if rng.random() < 0.5:
+            handlers.append({'kind': 'timer', 'id': 'tm', 'opts': {'interval': 1.0}, 'script': [['ok', {'n': k2}] for k2 in range(80)]})
+        cases.append({'name': f'reauthop{j}', 'type': 'reauth_op', 'last': last,
+                      'desc': {'seed': rng.randrange(1 << 30), 'handlers': handlers, 'timeline': tl, 'quiet': 6.0, 'horizon': 200.0, 'latency': rng.choice([0.001, 0.02, 0.1]),
+                               'settings': {'queueing__idle_timeout': 1.0, 'persistence__consistency_timeout': 0.5, 'networking__error_backoffs': [0.2, 0.4]}}})
     # (c) containment per object
     for j in range(40 if tier == 'quick' else 800):
         delays = rng.choice([[1.0, 2.0, 3.0], [0.5], [], [1.0, 1.0, 2.0, 3.0, 5.0]])
@@ -497,7 +524,71 @@ def run_contain(case: dict[str, Any]) -> dict[str, Any]:
             'sample': {'fault': fault, 'error_delays': delays, 'windows': windows, 'rounds': [[round(r.t, 3) for r in rd] for rd in rounds][:6]} if case['name'] == 'contain0' else None}
 
 
+def run_reauth_operator(case: dict[str, Any]) -> dict[str, Any]:
+    from kv.monitors import Stall
+    from kv.oracles import Index
+    from kv.world import run_world
+    Stall.take_hits()
+    desc = copy_desc(case['desc'])
+    # the timer (if any) ends its writes before the run is judged quiet
+    w = run_world(desc)
+    ix = Index(w)
+    viol: list[dict[str, Any]] = []
+    cov = {k: 0 for k in GATES}
+    cov['reauth_operator_runs'] = 1
+    for s in Stall.take_hits():
+        viol.append({'mech': 'stall', 'msg': 'event loop stalled', 'witness': s})
+    inc = w.incs['op1']
+    if inc.exc is not None or (inc.t_end is not None and inc.t_stop_requested is None):
+        viol.append({'mech': 'operator-stopped-by-infrastructure-error', 'msg': f"kopf.operator() ended (exc={inc.exc!r}) at t={inc.t_end} after its credentials were revoked although a login handler hands out fresh ones", 'witness': None})
+    reqs = [r for r in w.requests if r.client == 'op1']
+    noticed = sorted({r.token for r in reqs if r.status == 401 and r.token})
+    logins = [c for c in ix.calls if c['inc'] == 'op1' and c['kind'] == 'login']
+    login_done = {ix.rets[c['seq']].get('token'): ix.rets[c['seq']]['t'] for c in logins if c['seq'] in ix.rets}
+    cov['logins'] = len(logins)
+    if len(logins) != len(noticed) and inc.exc is None:
+        viol.append({'mech': 'reauthentication-count', 'msg': f"{len(logins)} login activities for {len(noticed)} revoked-and-noticed tokens {noticed} (at t={[round(c['t'], 3) for c in logins]})", 'witness': None})
+    # a revoked token is not presented again once its replacement is ready
+    order = [f'op1-tok{k}' for k in range(len(logins) + 1)]
+    for k, tok in enumerate(order[:-1]):
+        nxt = order[k + 1]
+        if tok in noticed and nxt in login_done:
+            late = [r for r in reqs if r.token == tok and r.t > login_done[nxt] + 1e-9]
+            if late:
+                viol.append({'mech': 'revoked-credentials-reused', 'msg': f"token {tok} was answered 401; its replacement {nxt} was ready at t={login_done[nxt]}; {len(late)} request(s) still carried {tok} afterwards "
+                                                                         f"(first: {late[0].method} {late[0].path} at t={late[0].t})", 'witness': None})
+                break
+    cov['blocked_requests_resumed'] = sum(1 for tok, t1 in login_done.items() for r in reqs if r.token == tok and t1 <= r.t <= t1 + 0.5)
+    # recovery: every object's last edit has been handled, and the objects are watched with valid credentials at the end
+    if w.quiesced and inc.exc is None:
+        for nm, x in case['last'].items():
+            uid = next((u for u, vs in w.history.items() if vs[0]['plural'] == 'kopfexamples' and vs[0]['body']['metadata']['name'] == nm), None)
+            done = [c for c in ix.calls if c['uid'] == uid and c['h'] == 'u1' and (c.get('spec') or {}).get('x') == x and c['seq'] in ix.rets]
+            cov['recoveries'] += 1
+            if not done:
+                viol.append({'mech': 'change-lost-in-reauthentication', 'msg': f"object {nm}: its last edit (spec.x={x}) was never handled by the update handler although the operator re-authenticated "
+                                                                              f"(revoked and noticed: {noticed}, logins at {[round(c['t'], 3) for c in logins]})", 'witness': None})
+                break
+        t_q = w.t_quiesced or 0.0
+        open_now = [s for s in w.sim.kube.streams if s.client.name == 'op1' and s.plural == 'kopfexamples' and s.opened <= t_q and (s.closed_at is None or s.closed_at >= t_q - 1e-9)]
+        if not open_now or any(s.client.token in w.sim.kube.revoked_tokens for s in open_now):
+            viol.append({'mech': 'not-watching-after-reauthentication', 'msg': f"at quiescence (t={t_q}) the operator has {len(open_now)} open watch stream(s) for kopfexamples with valid credentials "
+                                                                              f"(tokens: {[s.client.token for s in open_now]}; revoked: {sorted(w.sim.kube.revoked_tokens)})", 'witness': None})
+    elif not w.quiesced:
+        viol.append({'mech': 'no-quiescence', 'msg': 'the operator kept sending requests until the horizon after its credentials were revoked', 'witness': None})
+    sig = hashlib.sha1(repr((noticed, [round(c['t'], 2) for c in logins], len(reqs) // 10)).encode()).hexdigest()[:16]
+    return {'violations': viol, 'cov': cov, 'sig': sig, 'nontrivial': bool(noticed),
+            'sample': {'revoked_and_noticed': noticed, 'logins': [round(c['t'], 3) for c in logins], 'requests': len(reqs), 'unauthorized': sum(1 for r in reqs if r.status == 401)} if case['name'] == 'reauthop0' else None}
+
+
+def copy_desc(d: dict[str, Any]) -> dict[str, Any]:
+    import copy
+    return copy.deepcopy(d)
+
+
 def run_case(case: dict[str, Any]) -> dict[str, Any]:
+    if case['type'] == 'reauth_op':
+        return run_reauth_operator(case)
     if case['type'] == 'retry':
         return run_retry(case)
     if case['type'] == 'reauth':
